@@ -223,4 +223,4 @@ def st_case(ctx: Ctx):
     )
 
 
-PARTS = [Part("trees", check_tree, strategy=st_case, quick=1200, thorough=60000)]
+PARTS = [Part("trees", check_tree, strategy=st_case, quick=1600, thorough=64000)]
